@@ -15,7 +15,7 @@ EXTENDS Naturals, Sequences, FiniteSets, TLC, Json
 CONSTANTS Opens,       \* OPEN classes offered by the peer (subset of DOMAIN OpenDef)
           Updates,     \* UPDATE classes (subset of DOMAIN UpdDef)
           Garbage,     \* malformed-header classes (subset of DOMAIN HdrDef)
-          Stops,       \* administrative / timer events used: subset of {"ManualStop", "HoldExpires", "WriteFails", "Notification"}
+          Stops,       \* administrative / timer events used: subset of {"ManualStop", "HoldExpires", "WriteFails"} \cup DOMAIN NotifDef
           LocalCfg,    \* name of the local peer configuration (DOMAIN CfgDef)
           MaxDepth, MaxSessions
 
@@ -30,12 +30,16 @@ VARIABLES st,          \* "none" (no connection yet) | "OpenSent" | "OpenConfirm
 vars == <<st, conn, attached, adjIn, out, hold, nsess, hist>>
 
 (* local configurations *)
-CfgDef == [ ebgp   |-> [ibgp |-> FALSE, hold |-> 90, role |-> "none",     strict |-> FALSE, addpath |-> FALSE],
-            ibgp   |-> [ibgp |-> TRUE,  hold |-> 90, role |-> "none",     strict |-> FALSE, addpath |-> FALSE],
-            hold3  |-> [ibgp |-> FALSE, hold |-> 3,  role |-> "none",     strict |-> FALSE, addpath |-> FALSE],
-            cust   |-> [ibgp |-> FALSE, hold |-> 90, role |-> "customer", strict |-> FALSE, addpath |-> FALSE],
-            custS  |-> [ibgp |-> FALSE, hold |-> 90, role |-> "customer", strict |-> TRUE,  addpath |-> FALSE],
-            ap     |-> [ibgp |-> FALSE, hold |-> 90, role |-> "none",     strict |-> FALSE, addpath |-> TRUE] ]
+CfgDef == [ ebgp   |-> [ibgp |-> FALSE, hold |-> 90, role |-> "none",     strict |-> FALSE, addpath |-> FALSE, rrc |-> "no"],
+            ibgp   |-> [ibgp |-> TRUE,  hold |-> 90, role |-> "none",     strict |-> FALSE, addpath |-> FALSE, rrc |-> "no"],
+            hold3  |-> [ibgp |-> FALSE, hold |-> 3,  role |-> "none",     strict |-> FALSE, addpath |-> FALSE, rrc |-> "no"],
+            cust   |-> [ibgp |-> FALSE, hold |-> 90, role |-> "customer", strict |-> FALSE, addpath |-> FALSE, rrc |-> "no"],
+            custS  |-> [ibgp |-> FALSE, hold |-> 90, role |-> "customer", strict |-> TRUE,  addpath |-> FALSE, rrc |-> "no"],
+            ap     |-> [ibgp |-> FALSE, hold |-> 90, role |-> "none",     strict |-> FALSE, addpath |-> TRUE, rrc |-> "no"],
+            \* the peer is a route reflector client: the cluster id (default = the router id, or configured) takes part in loop
+            \* detection exactly while the session is attached
+            rr     |-> [ibgp |-> TRUE,  hold |-> 90, role |-> "none",     strict |-> FALSE, addpath |-> FALSE, rrc |-> "default"],
+            rrcid  |-> [ibgp |-> TRUE,  hold |-> 90, role |-> "none",     strict |-> FALSE, addpath |-> FALSE, rrc |-> "explicit"] ]
 L == CfgDef[LocalCfg]
 RouterID == 100
 LocalAS == 65000
@@ -174,10 +178,13 @@ RecvGarbage(g) ==
     /\ ToIdle(<<Notif(HdrDef[g][1], HdrDef[g][2])>>)
     /\ Log([a |-> "RecvGarbage", g |-> g])
 
-RecvNotification ==
+(* NOTIFICATIONs the peer may send: a plain Cease, one with data, and ones whose code / subcode this speaker does not know *)
+(* (RFC 7313 code 7, a header error subcode beyond 3): whatever it says, the session ends, nothing is sent back          *)
+NotifDef == [Notification |-> <<6, 0, 0>>, NotifData |-> <<6, 2, 5>>, NotifCode7 |-> <<7, 1, 0>>, NotifBadSub |-> <<1, 9, 0>>]
+RecvNotification(n) ==
     /\ st \in {"OpenSent", "OpenConfirm", "Established"}
     /\ ToIdle(<<>>)
-    /\ Log([a |-> "RecvNotification"])
+    /\ Log([a |-> "RecvNotification", n |-> n, code |-> NotifDef[n][1], sub |-> NotifDef[n][2], datalen |-> NotifDef[n][3]])
 
 HoldExpires ==
     /\ st \in {"OpenConfirm", "Established"} /\ hold # 0
@@ -200,7 +207,7 @@ Step == \/ Connect
         \/ RecvKeepalive
         \/ \E u \in Updates : RecvUpdate(u)
         \/ \E g \in Garbage : RecvGarbage(g)
-        \/ "Notification" \in Stops /\ RecvNotification
+        \/ \E n \in Stops \cap DOMAIN NotifDef : RecvNotification(n)
         \/ "HoldExpires" \in Stops /\ HoldExpires
         \/ "WriteFails" \in Stops /\ WriteFails
         \/ "ManualStop" \in Stops /\ ManualStop
